@@ -1,1 +1,80 @@
-fn main() { println!("{:?}", string_calculator::eval_f64("1+1".to_string(), 0.0).ok()); }
+mod vocab; mod tree; mod val; mod call; mod render; mod refsem; mod expect; mod engine;
+
+use engine::*;
+use serde_json::{json, Value};
+use std::io::{BufRead, Write};
+
+fn open_out(job: &Value, profile: &str) -> Out {
+    let f = |k: &str| std::io::BufWriter::new(std::fs::OpenOptions::new().create(true).append(true).open(job[k].as_str().unwrap()).unwrap());
+    let hb = job["hb"].as_str().map(|p| std::fs::OpenOptions::new().create(true).write(true).open(p).unwrap());
+    Out { findings: f("out"), events: f("events"), hb, stats: Stats::default(),
+          event_every: job["event_every"].as_u64().unwrap_or(0), event_cap: job["event_cap"].as_u64().unwrap_or(0), profile: profile.to_string() }
+}
+
+fn write_stats(job: &Value, out: &mut Out, done: bool) {
+    let s = &out.stats;
+    let v = json!({"done": done, "items": s.items, "calls": s.calls, "compared": s.compared, "matched": s.matched, "not_asserted": s.not_asserted,
+        "not_asserted_rules": s.not_asserted_rules, "findings": s.findings, "by_cat": s.by_cat, "distinct": s.distinct.len(), "nontrivial": s.nontrivial.len(),
+        "events": s.events, "max_ticks_ratio": s.max_ticks_ratio, "max_ticks": s.max_ticks, "samples": s.samples, "metamorphic_pairs": s.metamorphic_pairs,
+        "profile": out.profile});
+    let mut f = std::fs::OpenOptions::new().create(true).append(true).open(job["stats"].as_str().unwrap()).unwrap();
+    let _ = writeln!(f, "{}", v);
+    let _ = out.findings.flush();
+    let _ = out.events.flush();
+}
+
+fn profile_name() -> &'static str { if cfg!(debug_assertions) { "debug" } else { "release" } }
+
+fn run_replay(job: &Value) {
+    let v = vocab::Vocab::load(job["vocab"].as_str().unwrap());
+    let e = job["e"].as_str().unwrap().to_string();
+    let shard = job["shard"].as_u64().unwrap_or(0);
+    let nshards = job["nshards"].as_u64().unwrap_or(1);
+    let start = job["start"].as_u64().unwrap_or(0);
+    let nasg = job["assignments"].as_u64().unwrap_or(2) as usize;
+    let min_ops = job["nontrivial_min_ops"].as_u64().unwrap_or(2) as usize;
+    let full_ph = job["full_placeholders"].as_bool().unwrap_or(false);
+    let allfns = job["all_functions"].as_bool().unwrap_or(false);
+    let mut out = open_out(job, profile_name());
+    let pols: Vec<render::Policy> = (0..nasg).map(|k| {
+        let mut p = if allfns { render::Policy::all_fns(&e, k * 3 + 1) } else { render::Policy::reveal(&e, k * 3) };
+        if k == 1 { p.spaces = true; }
+        p
+    }).collect();
+    let phs = placeholder_pool(&e, full_ph);
+    let file = std::io::BufReader::new(std::fs::File::open(job["beh"].as_str().unwrap()).unwrap());
+    for (i, line) in file.lines().enumerate() {
+        let i = i as u64;
+        if i % nshards != shard || i < start { continue; }
+        let line = line.unwrap();
+        let bv: Value = match serde_json::from_str(&line) { Ok(x) => x, Err(_) => continue };
+        out.heartbeat(i);
+        out.stats.items += 1;
+        let b = parse_beh(&bv);
+        if !b.kinds.iter().all(|k| k == "bad" || v.has_kind(&e, k)) { continue; }
+        let _used = replay_base(&mut out, &v, &e, &b, &pols, &phs, min_ops);
+    }
+    out.heartbeat(u64::MAX);
+    write_stats(job, &mut out, true);
+}
+
+fn main() {
+    let args: Vec<String> = std::env::args().collect();
+    call::install_quiet_panic_hook();
+    if args.len() >= 3 && args[1] == "run" {
+        let job: Value = serde_json::from_str(&std::fs::read_to_string(&args[2]).unwrap()).unwrap();
+        match job["mode"].as_str().unwrap() {
+            "replay" => run_replay(&job),
+            m => { eprintln!("unknown mode {}", m); std::process::exit(2); }
+        }
+    } else if args.len() >= 4 && args[1] == "one" {
+        // sc_harness one <evaluator> <expr> [placeholder canon]  -- replay of a single call
+        let e = &args[2];
+        let ph = call::default_placeholder(e);
+        let (o, t) = call::call(e, &args[3], &ph);
+        println!("{} ticks={}", o.show(), t.total());
+    } else {
+        eprintln!("usage: sc_harness run <job.json> | one <e> <expr>");
+        std::process::exit(2);
+    }
+}
